@@ -758,6 +758,13 @@ def gen_C09(rng, count, tier):
 
 def gen_C14(rng, count, tier):
     n = 0
+    # stop() called from inside a write of the destination (a slot reached from the destination's own signals): the copy
+    # ends there, with the one completion stop() signals - also when it is the last block
+    for ln, block in ((4, 1), (4, 2), (9, 4), (12, 4), (5, 8), (1, 1)):
+        nblocks = (ln + block - 1) // block
+        for k in range(nblocks):
+            n += 1
+            yield ("copier", " ".join(["src:" + hx(bytes(range(65, 65 + ln))), "block:%d" % block, "stopin:%d" % k, "start"] + ["turn"] * (nblocks + 3)))
     maxlen = 5 if tier == "quick" else 8
     # exhaustive: random-access source, every block size, every range, left to run
     for ln in range(0, maxlen + 1):
